@@ -6,6 +6,7 @@ import (
 	"fmt"
 	"go/token"
 	"go/types"
+	"strings"
 
 	"golang.org/x/tools/go/ssa"
 )
@@ -597,6 +598,69 @@ func ruleC08Facade(r *Run) {
 			}
 			r.Check(rule, fmt.Sprintf("%s:store Resp#%d", FuncName(f), i+1), w.InstrPos(st), ok, map[bool]string{true: "Resp = &sameContext.writer", false: "Resp set to something other than the context's own wrapper: status/commit tracking is bypassed"}[ok])
 		}
+	}
+	// (5) the raw body-write helpers of the context always reach the writer: "the first write commits the header
+	// with the status recorded so far" also holds for an EMPTY first write (net/http commits on Write(nil)); a helper
+	// that returns early for empty data leaves the header open, and a status set afterwards replaces the one that
+	// was in force at the first write
+	{
+		writers := map[*ssa.Function]bool{}
+		var cands []*ssa.Function
+		for _, f := range w.Funcs {
+			if f.Parent() != nil || f.Signature.Recv() == nil || !isNamedPtr(f.Signature.Recv().Type(), ctxT) || !strings.HasPrefix(f.Name(), "Write") || f.Signature.Results().Len() != 0 {
+				continue
+			}
+			if f.Signature.Params().Len() != 1 {
+				continue
+			}
+			switch t := f.Signature.Params().At(0).Type().Underlying().(type) {
+			case *types.Slice:
+				if b, ok := t.Elem().Underlying().(*types.Basic); !ok || b.Kind() != types.Byte {
+					continue
+				}
+			case *types.Basic:
+				if t.Kind() != types.String {
+					continue
+				}
+			default:
+				continue
+			}
+			cands = append(cands, f)
+		}
+		for changed := true; changed; {
+			changed = false
+			for _, f := range cands {
+				if writers[f] {
+					continue
+				}
+				ok, _ := allPathsHit(f, nil, func(in ssa.Instruction) bool {
+					c, isC := in.(*ssa.Call)
+					if !isC {
+						return false
+					}
+					if c.Call.IsInvoke() && c.Call.Method.Name() == "Write" && isLoadOfField(c.Call.Value, respF) {
+						return true
+					}
+					if sc := staticCallee(c); sc != nil {
+						if writers[sc] {
+							return true
+						}
+						if sc.Name() == "Write" && sc.Signature.Recv() != nil && isNamedPtr(sc.Signature.Recv().Type(), m.rwT) {
+							return true
+						}
+					}
+					return false
+				})
+				if ok {
+					writers[f] = true
+					changed = true
+				}
+			}
+		}
+		for _, f := range cands {
+			r.Check(rule, FuncName(f)+":always writes", f.Pos(), writers[f], map[bool]string{true: "every normal path of the helper passes the data to c.Resp.Write (an empty write still commits the header)", false: "a path of the helper returns without calling c.Resp.Write (e.g. for empty data): such a first write does not commit the header, and a status set after it is the one that goes out"}[writers[f]])
+		}
+		r.Exists(rule, "Context raw write helpers", token.NoPos, len(cands) >= 1, fmt.Sprintf("%d helper(s)", len(cands)))
 	}
 	// (4) the http.Handler adapters hand c.Resp (not the raw writer) to wrapped handlers
 	for _, name := range []string{"WrapHTTPHandler", "WrapHTTPHandlerFunc"} {
